@@ -364,7 +364,62 @@ def no_checksum_cases(ctx):
                           f'strict decode() accepted {raw[:90]!r}, a sentence without a checksum', replay)
 
 
+def reader_route_cases(ctx):
+    """The flag of a sentence as the READERS deliver it (IterMessages, NMEAQueue; with and without a TagBlockQueue), for
+    sentences with a right / wrong checksum behind tag blocks with a right / wrong / no checksum of their own: the flag is about
+    the two hex digits after '*' and the bytes between the start delimiter and '*' of the SENTENCE, nothing else; an assembled
+    message is valid iff all of its parts are."""
+    import pyais.stream as ps
+    from pyais.queue import NMEAQueue
+    rng, rep = ctx.rng, ctx.rep
+
+    def tagged(line, how):
+        if how == 'none':
+            return line
+        body = b's:r%d,c:%d' % (rng.randrange(1000), 1600000000 + rng.randrange(10 ** 6))
+        x = ais.xor_checksum(body)
+        cs = {'right': x, 'wrong': x ^ 0x2A}[how]
+        return b'\\' + body + b'*' + format(cs, '02X').encode() + b'\\' + line
+    msgs = [[f] for f in sample_sentences(rng, 4) if f[0][3:].upper() in (b'VDM', b'VDO') and f[1] == b'1' and f[2] == b'1'][:8] \
+        + multi_messages(rng)
+    for fields_list in msgs:
+        for bad in ([None] + list(range(len(fields_list)))):
+            lines, want = [], True
+            for k, f in enumerate(fields_list):
+                p = part_of(f)
+                text = p.text
+                if bad == k:
+                    text = text[:-2] + format(int(text[-2:], 16) ^ 0x15, '02X').encode()
+                    want = False
+                lines.append(tagged(text, rng.choice(['none', 'right', 'wrong', 'wrong'])))
+            for tbq in (False, True):
+                for name in ('IterMessages', 'NMEAQueue'):
+                    rep.case(('reader-route', name, tbq, tuple(lines)), kind=f'reader-route:{name}:{"tbq" if tbq else "plain"}')
+                    q = ps.TagBlockQueue() if tbq else None
+                    got = []
+                    try:
+                        if name == 'IterMessages':
+                            got = [bool(m.is_valid) for m in ps.IterMessages(lines, tbq=q)]
+                        else:
+                            nq = NMEAQueue(tbq=q)
+                            for ln in lines:
+                                nq.put_line(ln)
+                            while True:
+                                m = nq.get_or_none()
+                                if m is None:
+                                    break
+                                got.append(bool(m.is_valid))
+                    except Exception as e:      # noqa: BLE001
+                        got = ['raised ' + type(e).__name__]
+                    if got != [want]:
+                        rep.violation({'entry': name, 'component': 'is_valid', 'kind': 'wrong-flag-through-reader', 'tbq': tbq},
+                                      f'{name}{" with a tag block queue" if tbq else ""} delivers validity {got} for '
+                                      f'{[l[:70] for l in lines]}; the sentence checksums say {[want]}',
+                                      {'reader_route': True, 'entry': name, 'tbq': tbq, 'lines': [l.hex() for l in lines], 'want': want})
+
+
 def run(ctx):
+    reader_route_cases(ctx)
     cases = generate(ctx)
     run_cases(ctx, cases, model_decode_every=3 if ctx.quick else 1)
     no_checksum_cases(ctx)
@@ -384,6 +439,27 @@ def hunt(ctx):
 
 
 def replay(ctx, data):
+    if data.get('reader_route'):
+        import pyais.stream as ps
+        from pyais.queue import NMEAQueue
+        lines = [bytes.fromhex(h) for h in data['lines']]
+        q = ps.TagBlockQueue() if data['tbq'] else None
+        try:
+            if data['entry'] == 'IterMessages':
+                got = [bool(m.is_valid) for m in ps.IterMessages(lines, tbq=q)]
+            else:
+                nq = NMEAQueue(tbq=q)
+                for ln in lines:
+                    nq.put_line(ln)
+                got = []
+                while True:
+                    m = nq.get_or_none()
+                    if m is None:
+                        break
+                    got.append(bool(m.is_valid))
+        except Exception as e:      # noqa: BLE001
+            got = ['raised ' + type(e).__name__]
+        return None if got == [data['want']] else f"{data['entry']} delivers validity {got}, the sentence checksums say {[data['want']]}"
     if data.get('no_checksum'):
         raw = bytes.fromhex(data['raw'])
         prod = nc.impl_produce(raw)
